@@ -15,6 +15,7 @@
 package diagnostic
 
 import (
+	"cmp"
 	"go/ast"
 	"reflect"
 	"slices"
@@ -77,6 +78,12 @@ func run(p *analysis.Pass) ([]Range, error) {
 			}
 		}
 	}
+
+	// The comment map is a Go map with unspecified iteration order, so sort the ranges to keep
+	// the exported fact (and hence the build artifacts) deterministic.
+	slices.SortFunc(ranges, func(a, b Range) int {
+		return cmp.Or(cmp.Compare(a.Filename, b.Filename), cmp.Compare(a.From, b.From), cmp.Compare(a.To, b.To))
+	})
 
 	// Import all nolint ranges from upstream.
 	var upstreamRanges []Range
